@@ -20,14 +20,15 @@ CHECKS = {
             'Held-on-observed, not a proof: the quantifier over all histories is sampled.',
             'Trusts the simulated kernel (calibrated against real psutil/subprocess) and the hand-driven '
             'periodic check; on-demand, respawn=False and max_age>0 are outside the statement.'),
-    'C02': ('SIM', 'fault_enumeration',
+    'C02': ('SIM+LIVE', 'fault_enumeration',
             'runtime monitoring with fault enumeration: worker death injected at every kernel-call boundary of the '
             'stop sequence on the simulated kernel; completion-instant oracle over the process table',
             'Every stop/restart/rm/quit/stop-all base history is replayed once per kernel-call boundary of its stop '
             'sequence with a worker death landing exactly there; at the instant the reply is written every table '
             'member must be reaped, and a random tail (checks, deaths, incr/decr, set of every option class) must '
             'not spawn for the stopped watcher; a third of the watchers carry refusing / failing stop, signal and '
-            'reap hooks. Complete over the '
+            'reap hooks, a past of stop/start cycles or max_age replacements, wall-clock steps inside the stop '
+            'sequence; real circusd histories judge the same on /proc. Complete over the '
             'boundaries of each sampled base history; base histories are sampled.',
             'Trusts the simulated kernel model (calibrated) and that deaths can only land at kernel-call '
             'boundaries of the single-threaded daemon; a stop that never completes is a violation here too.'),
@@ -38,7 +39,9 @@ CHECKS = {
             'deadline x 16 termination causes (incl. a second termination inside the grace period of a kill '
             'request, per-request overrides) x stop_children trees with a child vanishing at a kernel-call '
             'boundary; quick samples the grid, thorough enumerates it with several variants per cell; plus real '
-            'circusd histories under strace judged by the same rules on the kernel time stamps.',
+            'circusd histories under strace judged by the same rules on the kernel time stamps; wall-clock steps '
+            'inside the grace period; five restarts in a row with generations that change behaviour; a quarter '
+            'of the shards run with DEBUG set in the daemon environment.',
             'Virtual time is exact, so lateness is measured in polling steps; one polling step of slack is granted '
             'as the statement does; before_signal vetoes belong to C14.'),
     'C04': ('SIM+LIVE', 'fault_enumeration',
@@ -58,14 +61,16 @@ CHECKS = {
             'non-fatal signals (plain and recursive); plus real circusd histories with a real SUB socket.',
             'The SIM PUB socket records every message (no transport loss); the exit_code clause is not judged for '
             'a worker whose kill event was already published or that the daemon signalled at the instant of death.'),
-    'C05': ('SIM', 'exploration',
+    'C05': ('SIM+LIVE', 'exploration',
             'runtime monitoring: loop monitor charging virtual time.sleep to the loop iteration it blocks, read-only '
             'probes injected at selector polls, reply-latency oracle against B(op)',
             'Random overlapping request histories (exclusive and non-exclusive) with stubborn/dying workers; every '
             'blocked iteration > 0.5 s or dead-lock is reported with the circus call site and a mechanism tag; probes '
             'at every other selector poll must be answered inside handle_message; waiting replies must arrive within '
             'B(op); watchers with captured output and helper children (real pipes that stay open while a holder '
-            'lives: a read on an empty held pipe is a stall).',
+            'lives: a read on an empty held pipe is a stall), wall-clock steps at kernel-call boundaries, long '
+            'histories of one repeated operation, n stubborn workers killed in parallel; real circusd histories '
+            'with a second client probing every 100 ms (incl. an idle on-demand watcher).',
             'Virtual time: a wait that cannot end is decidable because nothing else can run; hooks never sleep here.'),
     'C10': ('SIM', 'exploration',
             'runtime monitoring: second request injected at every selector poll of the first; differential no-effect '
@@ -74,7 +79,8 @@ CHECKS = {
             'asynchronously) and 14 second requests, plus random chains; refusal, no-effect (snapshot and kernel '
             'ledger equal to the run without B), single exclusive operation in flight (also: no entry accepted while '
             'work started by an ended operation still runs), slot freed after every ending, incl. a reloadconfig '
-            'that found the [circus] section edited.',
+            'that found the [circus] section edited, a periodic check of an arbiter without watchers, the same '
+            'operation repeated after 30 s .. 1 h of virtual time, and requests sent as casts.',
             'Whether A is in flight is sampled when handle_message is entered for B; arbiter-wide restart is LIVE-only.'),
     'C11': ('SIM', 'exploration',
             'runtime monitoring: protocol snapshot + kernel ledger before/after every request answered with an error, '
@@ -116,7 +122,8 @@ CHECKS = {
             'Random watcher sets with priority ties, numprocesses 0-3, warmups and autostart flags; daemon start, '
             'start/restart of all, by glob and by regex; deaths injected during the sequence; starts that fail '
             'half-way (hook refusing the n-th spawn, after_start false); restart/start requests fired at a '
-            'periodic check that is respawning the watcher.',
+            'periodic check that is respawning the watcher; watchers removed/added at run time before the group '
+            'operation; 130-process watchers; wall-clock steps during the sequence.',
             'Virtual clock; spawn cost is modelled by hooks that consume virtual time.'),
     'C12': ('SIM', 'exploration',
             'runtime monitoring: differential comparison of the reloaded daemon with a fresh simulated daemon started '
@@ -157,14 +164,15 @@ CHECKS = {
             'and non-ASCII payloads, newline placement under time_format, close/reopen, no-rotation streams, and '
             'writes the operating system refuses (EFBIG for exactly one call).',
             'Size bound judged on ASCII payloads without time_format.'),
-    'C06': ('SIM+REF', 'exploration',
+    'C06': ('SIM+REF+LIVE', 'exploration',
             'runtime monitoring: reply ledger per frame handed to the real Controller.handle_message (count, envelope, '
             'JSON shape, status, id) with a follow-up probe; real CircusClient/AsyncCircusClient against a scripted '
             'ROUTER peer over real ZeroMQ',
             'Arbitrary bytes, every JSON shape, field-by-field corruption, every registered command with valid and '
             'type-confused properties and operations that fail after the immediate-reply path; client calls against '
             'permutations of stale/foreign/id-less/duplicate/right replies and silence, with fresh mappings or one '
-            'message object reused by the caller.',
+            'message object reused by the caller (and a stepped wall clock when the client uses one); a real '
+            'circusd answering requests from 10 bytes to 3 MiB exactly once each.',
             'Multi-frame envelopes are not judged; AsyncCircusClient has no timeout of its own.'),
     'C07': ('LIVE', 'exploration',
             'runtime monitoring of a real circusd under strace: socket inodes from /proc/<pid>/fd of daemon and '
